@@ -108,6 +108,11 @@ def gen_case_b(rnd, tier):
            'origin': rnd.choice(('nodata', 'nodata', 'xlsx')),
            'extra': rnd.random() < 0.4}
     targets = [f'S!B{i + 1}' for i in range(n)] + (['S!C1'] if cfg['extra'] else [])
+    if rnd.random() < 0.15:
+        # a workbook that asks for iterative calculation without saying how many passes or
+        # how exact: pycel's documented fall-back (10000 passes, 0.01) is what was requested
+        cfg['iter'] = [None, None]
+        cfg['origin'] = 'nodata'
     if rnd.random() < 0.2:
         cfg['cse_q'] = round(rnd.uniform(0.1, 0.8), 3)
         cfg['rows'] = [{'kind': 'cse'}] * n
@@ -242,8 +247,8 @@ def run_case_b(case):
                 if 'exc' in out:
                     violate('exception', i, op, 'set_value works', out, exc=out['exc'])
                 continue
-            iterations = op.get('iterations') or cfg['iter'][0]
-            tol = op.get('tolerance') or cfg['iter'][1]
+            iterations = op.get('iterations') or cfg['iter'][0] or 10000
+            tol = op.get('tolerance') or cfg['iter'][1] or 0.01
             start = len(log)
             out = driver.step(op)
             calls = {}
